@@ -40,7 +40,7 @@ MUTATIONS = [
     "arg-count", "arg-type", "return-wrong-branch", "assign-type", "if-branch-types", "hetero-list",
     "unknown-var", "toplevel-var-in-fun", "match-non-enum", "any-from-if", "call-non-function",
     "update-non-int", "last-expr-loop", "cond-type", "for-non-list", "print-non-string",
-    "use-after-scope", "stale-binder-type",
+    "use-after-scope", "stale-binder-type", "closure-return-outer-type",
 ]
 
 BASE_TYPES = [INT, INT, INT, BOOL, STR, LIST(INT), OPT(INT), LIST(STR), OPT(STR), TUP(INT, STR), LIST(OPT(INT)),
@@ -209,13 +209,25 @@ class Gen:
             self.f("match-bool")
             return "match %s { True => { %s } False => { %s } }" % (self.cond(depth + 1), self.expr(ty, depth + 1),
                                                                      self.expr(ty, depth + 1))
-        if ty == INT and k == 9 and self.chance(0.5):
+        if ty == INT and (k == 9 or (self.mutation == "closure-return-outer-type" and not self.applied and k >= 6)) \
+                and self.chance(0.6):
+            # an annotated closure, called at once; its body may `return` early: the value must have the
+            # CLOSURE's return type (Int), whatever the enclosing function returns
             self.f("closure-call")
             pn, _ = self.binder("c", INT)
+            outer = self.ret_ty
+            wrong = outer if outer not in (None, INT, UNIT) else (STR if outer is None else None)
             self.scopes.append([(pn, INT)])
             body = self.expr(INT, depth + 1)
+            early = ""
+            if wrong is not None and self.mut("closure-return-outer-type", 0.8):
+                early = "  if True { return %s }\n" % self.expr(wrong, depth + 2)
+            elif self.chance(0.6):
+                self.f("closure-return")
+                cond = "True" if self.chance(0.5) else self.expr(BOOL, depth + 2)
+                early = "  if %s { return %s }\n" % (cond, self.expr(INT, depth + 2))
             self.scopes.pop()
-            return "(fun(%s: Int): Int { %s })(%s)" % (pn, body, self.expr(INT, depth + 1))
+            return "(fun(%s: Int): Int {\n%s  %s\n})(%s)" % (pn, early, body, self.expr(INT, depth + 1))
         if ty == INT:
             if k < 7:
                 op = r.choice(["+", "-", "*", "+", "-", "%", "/"])
